@@ -521,7 +521,36 @@ def run_matrices(ck):
                               lambda j: dict(wit0, row=j // L, position=j % L + 1))
 
 
+def run_passthrough_ops(ck):
+    """Associative operations that return one of their operands (keep-first: a o b = a, keep-last: a o b = b - both associative and
+    non-commutative): the fold of keep-first is the first item everywhere, the fold of keep-last is the sequence itself."""
+    rng = ck.rng("passthrough")
+    for dt in (torch.int64, torch.float64):
+        for shape, dim in (((1,), 0), ((2,), 0), ((3,), 0), ((7,), 0), ((33,), 0), ((4, 5), 1), ((6, 2), 0), ((2, 3, 4), 1), ((2, 3, 9), 2)):
+            x0 = torch.as_tensor(rng.integers(-50, 50, shape)).to(dt)
+            first = x0.narrow(dim, 0, 1).expand(shape)
+            for opname, op, want in (("keep-first", lambda a, b: a, first), ("keep-last", lambda a, b: b, x0)):
+                for fname, inplace in (("cumops", False), ("cumops_", True)):
+                    x = x0.clone()
+                    regime = f"{fname}/{opname}"
+                    wit = {"fn": fname, "op": opname, "shape": list(shape), "dim": dim, "dtype": str(dt)}
+                    okc, res = ck.call("tok_dims", regime, fname, (pp.cumops_ if inplace else pp.cumops), x, dim, op, witness=wit)
+                    ck.count("tok_dims", regime, key=(fname, opname, shape, dim, str(dt)), nontrivial=shape[dim] > 1)
+                    if not okc:
+                        continue
+                    ck.check(isinstance(res, torch.Tensor) and tuple(res.shape) == tuple(shape) and torch.equal(res, want), "tok_dims", regime, fname,
+                             "wrong_fold_at_position", lambda: dict(wit, got=res.tolist() if res.numel() <= 40 else None))
+                    if inplace:
+                        ck.check(torch.equal(x, want), "tok_dims", regime, fname, "inplace_input_not_overwritten", wit)
+                    else:
+                        ck.check(torch.equal(x, x0), "tok_dims", regime, fname, "input_modified_by_out_of_place", wit)
+                    ck.mark("tok/pass-through-op")
+
+
 def run(ck):
+    if ck.shard == 1 % ck.nshards:
+        run_passthrough_ops(ck)
+    ck.require("tok/pass-through-op")
     if ck.shard == 0:
         # repeat-call monitor (shared, added by the framework owner): history / reused-object / memory-layout independence
         from .. import repeat
